@@ -440,6 +440,52 @@ def rule_slice(S):
                  ': an 8-byte left endpoint is routed like the next-layer link that sorts after it, the scan starts '
                  'one border too far right' if hint else ''), loc=f.loc)
 
+    def check_rtl(f, fname):
+        """right-to-left descent (unbounded right end): the descent key is the greatest possible tuple"""
+        nonlocal n
+        svp = [p['name'] for p in f.params if 'basic_string_view' in p['type']]
+        bools = [p['name'] for p in f.params if p['type'].replace('const ', '') == 'bool']
+        if not svp or len(bools) != 1:
+            return
+        log = []
+
+        def markers(m):
+            if m[0] != 'node':
+                return None
+            nd, ev = m[1], m[2]
+            if is_call(nd, cq=Y + 'find_border'):
+                a = call_args(f, nd)
+                try:
+                    log.append((ev.ev(a[1]), ev.ev(a[2])))
+                except AnalysisBroken:
+                    log.append((None, None))
+                return ('done', None)
+            if nd['k'] == 'ReturnStmt':
+                return ('done', None)
+            return None
+
+        bind = {'vars': {}, 'members': {}, 'calls': dict(NODE_CALLS)}
+        for nm in svp:
+            bind['vars'][nm] = ('obj', 'kv')
+        bind['vars'][bools[0]] = 1
+        for p_ in f.params:
+            if 'scan_endpoint' in p_['type']:
+                bind['vars'][p_['name']] = 2   # INF
+        ev = AbsEval(f, (0, 0, 8, 0), bind, markers, {'key_size': 0})
+        try:
+            ev.run(_slice_start(f))
+        except AnalysisBroken as e:
+            S.note('R-SLICE: right-to-left descent of %s not evaluated (%s)' % (fname, str(e)[:100]))
+            return
+        n += 1
+        ok = bool(log) and log[0][0] == 0xFFFFFFFFFFFFFFFF and isinstance(log[0][1], int) and log[0][1] >= 8
+        S.ob('R-SLICE', fname, 'right-to-left descent key', ok,
+             'the greatest slice with a full length: the descent reaches the rightmost border' if ok else
+             'a right-to-left scan descends with (slice, length) = (%s, %s): with a length below 8 the all-ones slice '
+             'is routed like a short key to the LEFT of equal-prefix separators, the scan starts at the wrong border' %
+             (hex(log[0][0]) if log and isinstance(log[0][0], int) else (log[0][0] if log else '?'),
+              log[0][1] if log else '?'), loc=f.loc)
+
     for q, pick in ((Y + 'get', lambda f: f.params and f.params[0]['type'] == 'yakushima::tree_instance *'),
                     (Y + 'put', lambda f: len(f.params) > 1 and f.params[1]['type'] == 'yakushima::tree_instance *'),
                     (Y + 'remove', lambda f: len(f.params) > 1 and f.params[1]['type'] == 'yakushima::tree_instance *')):
@@ -457,7 +503,9 @@ def rule_slice(S):
         if f.is_lambda or not f.params:
             continue
         if f.params[0]['type'] in ('yakushima::tree_instance *', 'yakushima::base_node *const', 'yakushima::base_node *'):
-            check(f, f.qname + '<%s>(%s)' % (f.targs, f.params[0]['type'].replace('yakushima::', '')), hint=True)
+            fn_ = f.qname + '<%s>(%s)' % (f.targs, f.params[0]['type'].replace('yakushima::', ''))
+            check(f, fn_, hint=True)
+            check_rtl(f, fn_)
     S.require('R-SLICE', 'slicing sites', n, 5)
 
 
